@@ -37,10 +37,42 @@ CHECKS = {
    "every receiver entry point named by the property runs as a simulated node under catch_unwind while the transport corrupts EVERY delivery (10 byte-level kinds), enumerates boundary values of every length/threshold field and short prefixes, and substitutes structurally valid degenerate values (shares without y, x=0, thresholds 0 and 2^32-1, undecodable group elements in each position of a public key / evaluation / request, missing proof, non-base64 and empty lines); corrupted-but-accepted values flow on into recovery and verification. Oracle: no unwind. Built with overflow-checks so arithmetic overflow counts.",
    "aborts cannot be caught in-process: the wrapper treats an abnormal exit as a violation; Client::unblind and Point::from(&[u8]) are outside the property's list",
    "deterministic simulation with fault injection; crash oracle (catch_unwind per receiver callback); fault enumeration per delivery"),
+ "C10": ("exploration", "DESIGN.md §4 C10",
+   "seeded search over operation histories of one GGM key and its clones (eval, puncture in adversarial orders up to all 256 inputs, repeated puncture, wrong-length operations, clone-and-diverge) against an ideal table + punctured set; after every operation the result is compared with the model and the affected subtree / a sample / the full domain is swept. Not an enumeration of the 2^256 subsets.",
+   "trusts strobe-rs and bitvec; sampling only",
+   "deterministic simulation of a stateful key under seeded operation histories; reference-model oracle after every step"),
+ "C11": ("exploration", "DESIGN.md §4 C11",
+   "a server registered for all 256 tags is driven through drawn puncture histories; at drawn points its key state is exported, crosses the simulated wire and is imported into a fresh instance that takes over (crash/replication). On every exported blob, read through a serde mirror: no retained prefix on the path to a punctured tag; prefixes prefix-free and covering exactly the live tags; tamper attack (punctured list emptied, re-imported) must not evaluate any punctured tag; an independent GGM descent from the exported seeds reproduces the server for live tags and has no start node for punctured ones.",
+   "the mirror follows the serde layout of the key state (drift = harness error, exit 2); zeroisation of dropped seeds in memory is not observable",
+   "deterministic simulation (export -> transport -> import at arbitrary history points, crash/restore); structural invariant on exported state + attack replay + independent re-derivation"),
+ "C12": ("exploration", "DESIGN.md §4 C12",
+   "seeded search over world-C histories (several servers with own keys, many clients, requests, blindings; dup/reorder/delay/replay): (key, tag, input) -> finalised output is a function across the whole history and injective; every unblinded point equals the server's evaluation of the independently recomputed H(input); Client::finalize equals the documented hash; blinded request points are pairwise distinct and differ from H(input).",
+   "chance collisions of 256-bit values ignored; obliviousness is decided structurally (freshness), not cryptographically",
+   "deterministic simulation with per-party seeded entropy and transport faults; function/injection tables over the recorded history"),
+ "C13": ("fault_enumeration", "DESIGN.md §4 C13",
+   "world C in verifiable mode: every honest response verifies after crossing as JSON/bincode; for every honest (pk, P, Q, tag, c, s) an enumerated tamper set replaces one component by the same-typed component of other exchanges (incl. misdelivered / replayed responses, other servers' keys, other tags), by a neighbour (scalar +-1, point + G, one bit, swapped tag entries) or by identity/zero; verify must be false unless the resulting (statement, proof) was honestly issued; the commitments r*G of all issued proofs are pairwise distinct (no nonce reuse).",
+   "soundness over the enumerated tamper set, not a cryptographic proof; panics of verify are C09's",
+   "deterministic simulation with a tampering transport (substitution, replay, misdelivery); statement-equality oracle; nonce-commitment table over the history"),
+ "C14": ("exploration", "DESIGN.md §4 C14",
+   "seeded search over full world-C histories: primary with epoch timer puncturing and replicating its exported key state over a lossy/duplicating/reordering transport (replicas may import an older state after a newer one), clients with skewed clocks whose requests arrive after the puncture, durable snapshots with lost writes, crash + restart from stale snapshot or with a new key, clone-and-diverge, manual export/import, punctures of boundary/unregistered/adjacent/already-punctured tags; after every operation the outcome is compared with a per-instance reference model and a sweep checks answered-iff-live, answers unchanged, public key unchanged, importer == exporter at export time.",
+   "key-state blobs are never corrupted here; no liveness claim; the rotation loop is a harness stub modelled on ppoprf/examples/server.rs (not executed)",
+   "deterministic discrete-event simulation with timers, clock skew, crash/restart with durable-only state, replication under message faults; per-instance reference model checked after every event"),
+ "C15": ("fault_enumeration", "DESIGN.md §4 C15",
+   "every public key and proof (bincode) and every point and evaluation (JSON) that crosses the simulated wire in world C is restored and must equal the original and be interchangeable with it in Client::verify; per value the transport's truncation to every prefix must be refused, padding to limit-1/limit loads and equals, limit+1 gives SerializedDataTooBig (16384 / 64 bytes), bit flips never yield an unstable value; tag sets of 0..256 tags.",
+   "bincode ignores trailing bytes by design; JSON forms have no documented limit",
+   "deterministic simulation; value-equality oracle after transport; enumerated truncation/padding faults per value"),
  "C16": ("exploration", "DESIGN.md §4 C16",
    "seeded search over adss sharings (t 0..128, |M|,|R| 0..100000 with block-boundary lengths, optional custom transcripts) dealt by independent dealer nodes - different entropy streams, and two dealers handed the SAME stream through the getrandom seam - whose shares cross the wire under drop/dup/reorder to one combiner where shares of a second transcript also arrive; history oracle: threshold/C/D/J identical across dealers, same entropy => identical share, different entropy => distinct points, t shares recover M, the recovered sharing re-shared mixes with original shares, t=0 never recovers, custom-transcript shares rejected, two transcripts never combine (when |M|+|R| >= 16).",
    "two honest dealers never draw the same point; transcript-mix check needs >= 128 authenticated bits",
    "deterministic simulation with controlled per-dealer entropy (identical vs different streams) and transport faults; determinism table + re-sharing oracle"),
+ "C17": ("exploration", "DESIGN.md §4 C17",
+   "world A with WASM clients (create_share) and a WASM aggregator (group_shares), run natively: every create_share output is parsed as JSON, its base64 fields decoded and compared with the core library's derivation for the same triple; base64 share lines (WASM and core clients mixed) cross the transport under drop/dup/reorder; group_shares must return the clients' key iff >= t distinct shares arrived, None when fewer or for a sub-threshold mix, and never the clients' key under another epoch; epochs empty / ASCII / multi-byte UTF-8.",
+   "the wasm-bindgen glue is not exercised (native rlib); malformed lines are C09's",
+   "deterministic simulation with transport faults; core library as reference on the same inputs"),
+ "C18": ("exploration", "DESIGN.md §4 C18",
+   "world A with star_test_utils::AggregationServer as aggregator: delivered reports (after drop/reorder/delay) go in arrival order to retrieve_outputs inside a real rayon pool of drawn size 1..16; canonical output must equal the ideal functionality over the delivered multiset and be identical under a second permutation and pool size.",
+   "rayon's internal scheduling and HashMap order are not controlled (tasks share no state; output canonicalised); duplicated deliveries excluded; empty aux == absent aux",
+   "deterministic simulation of delivery schedules + real thread pool of seeded size; ideal-functionality oracle on canonicalised output"),
 }
 NA = {
  "C07": "pure function of two operands: no party, message, state, fault, schedule or entropy for a simulator to own (DESIGN.md §4 C07); operand generation against big integers would be property-based testing, not this technique",
